@@ -110,10 +110,11 @@ func (it *Iterator) Seek(target []byte) bool {
 	it.initialized = true
 
 	// Find the block that might contain the key
-	// The index contains the first key of each block
-	if !it.indexIterator.Seek(target) {
-		// If seeking in the index fails, try the last block
-		it.indexIterator.SeekToLast()
+	// The index contains the first key of each block, so that is the last
+	// block whose first key is <= target
+	if !it.indexIterator.SeekFloor(target) {
+		// target is smaller than every key of the table: start at the first block
+		it.indexIterator.SeekToFirst()
 		if !it.indexIterator.Valid() {
 			// No blocks in the SSTable
 			it.resetBlockIterator()
